@@ -21,6 +21,7 @@ RULE = ("requests `cmpall` (== != < <= > >= partial_cmp) for Decimal/Decimal and
 BUILDS = {"quick": [("dev", ("full",)), ("release", ("full",)), ("release", ("full", "packed"))],
           "thorough": [("dev", ("full",)), ("release", ("full",)), ("release", ("full", "packed")),
                        ("dev", ("full", "packed")), ("o0-nochk", ("full",))]}
+MODE_INDEPENDENT = True      # half of every batch runs under a non-default thread rounding mode
 REQUIRED_SITES = {"cmp.lhs_ovf": 200, "cmp.rhs_ovf": 200}
 BUDGET = {"quick": 20, "thorough": 300}
 N_RANDOM = {"quick": 6000, "thorough": 30000}
